@@ -246,7 +246,7 @@ def run_C15(ctx):
         f = fields(a)
         ops = ["open"] + [o.strip() for o in c.split("|", 1)[1].split(";")]
         cfg = c.split("|")[0].split()[1:]
-        max_items, cap = int(cfg[0]), int(cfg[1])
+        max_items, cap = gen.cfg_ints(cfg)[0:2]
         boundary_before = None
         for k in range(1, len(f) - 1):
             if f[k].startswith("stat ") and not f[k + 1].startswith("resident"):
@@ -365,7 +365,7 @@ def oracle_c11(case, a):
     f = fields(a)
     ops = ["open"] + [o.strip() for o in case.split("|", 1)[1].split(";")]
     cfg = case.split("|")[0].split()[1:]
-    max_recs, max_size = int(cfg[2]), int(cfg[3])
+    max_recs, max_size = gen.cfg_ints(cfg)[2:4]
     if not f[-1].startswith("disk ") or len(f) != len(ops):
         return None
     import p_recover
